@@ -12,7 +12,8 @@
    the target holds exactly the result" (for a target dest.init_args.x: or the class at dest takes no x);
    [fn : nat -> list val -> option val] interprets the compute functions and is universally quantified. *)
 From JV Require Import Lib.Base Lib.C15Val Model.C15Links Model.C15Tree
-  Proofs.C15Proofs Proofs.C15DumpProofs Proofs.C15ItemsProofs Proofs.C15FixedProofs Proofs.C15Witness Proofs.C15TreeProofs.
+  Proofs.C15Proofs Proofs.C15DumpProofs Proofs.C15ItemsProofs Proofs.C15FixedProofs Proofs.C15Witness Proofs.C15TreeProofs
+  Proofs.C15FixedDumpProofs.
 
 (* ---------------------------------------------------------------- 1. the invariant *)
 (* Every successful parse of every parser, whatever the input: each link holds in the result. The guard excludes
@@ -296,3 +297,68 @@ Example C15_subcommand_stale_target_repaired :
   reload_sub wfn true (fst (build st_decls st_links)) (VMap [(sY, VInt 9)]) = Ok (VMap [(sY, VInt 9)]) /\
   apply_links wfn (VMap [(sY, VInt 9)]) (p_links (fst (build st_decls st_links))) = Ok (VMap [(sY, VInt 9); (sA, VInt 9)]).
 Proof. exact st_fixed_reload. Qed.
+
+(* ---------------------------------------------------------------- 10. the dump statements for the REPAIRED code
+   Both repairs are in /repo (known_findings/C15.txt: fixed), so the judge ties the implementation to
+   [build_fixed] / [strip_fixed] (Corr/C15Judge.v, c_fixed). Sections 5 and 8 speak about [build] / [strip]; these are
+   the same statements for the pair the current code is tied to: no target key of any accepted link in the dump,
+   every key that overlaps no target dumped unchanged (in particular such sources: what the re-parse computes the
+   target from), and the same through the TOP parser of a tree, including the items of a list of classes under the
+   subcommand's key. Any configuration, any declarations and link_arguments calls. *)
+Theorem C15_fixed_target_absent_from_dump :
+  forall (ds : list decl) (ls : list link) (cfg : val) (a : alink),
+    let p := fst (build_fixed ds ls) in
+    In a (p_links p) -> al_tgt a <> [] -> get (strip_fixed p cfg) (al_tgt a) = None.
+Proof. exact fixed_target_absent_from_dump. Qed.
+Print Assumptions C15_fixed_target_absent_from_dump.
+
+Theorem C15_fixed_dump_changes_only_targets :
+  forall (ds : list decl) (ls : list link) (cfg : val) (k : key),
+    let p := fst (build_fixed ds ls) in
+    (forall a, In a (p_links p) -> comparable (al_tgt a) k = false) -> get (strip_fixed p cfg) k = get cfg k.
+Proof. exact fixed_dump_frame. Qed.
+Print Assumptions C15_fixed_dump_changes_only_targets.
+
+Theorem C15_fixed_tree_targets_absent_from_dump :
+  forall (ds : list decl) (ls : list link) (ds' : list decl) (ls' : list link) (n : str) (cfg : val),
+    let p := fst (build_fixed ds ls) in
+    let q := fst (build_fixed ds' ls') in
+    (forall a, In a (p_links p) -> al_tgt a <> [] ->
+       comparable (al_tgt a) [n] = false -> get (strip_tree strip_fixed p q n cfg) (al_tgt a) = None) /\
+    (forall a, In a (p_links q) -> al_tgt a <> [] -> get (strip_tree strip_fixed p q n cfg) (n :: al_tgt a) = None) /\
+    (forall a d c, In a (p_links q) -> al_kind a = TgtInit d c ->
+       forall items, get (strip_tree strip_fixed p q n cfg) (n :: d) = Some (VList items) ->
+       forall i, In i items -> get i c = None).
+Proof. exact fixed_tree_targets_absent_from_dump. Qed.
+Print Assumptions C15_fixed_tree_targets_absent_from_dump.
+
+Example C15_fixed_dump_hypotheses_satisfiable :
+  let p := fst (build_fixed ex_decls ex_links) in
+  exists a, In a (p_links p) /\ al_tgt a = [sT] /\ get ex_cfg (al_tgt a) = Some (VInt 12) /\
+            (forall b, In b (p_links p) -> comparable (al_tgt b) [sA] = false) /\
+            strip_fixed p ex_cfg = VMap [(sA, VInt 5); (sB, VInt 7)].
+Proof. exact fx_dump_hyps. Qed.
+
+Example C15_fixed_tree_dump_links_only_in_subcommand :
+  strip_tree strip_fixed (fst (build_fixed tr_top [])) (fst (build_fixed ex_decls ex_links)) sFit tr_cfg
+  = VMap [(sS, VInt 3); (sFit, VMap [(sA, VInt 5); (sB, VInt 7)])].
+Proof. exact fx_tree_dump. Qed.
+
+(* the invariant for a parser tree built by the repaired link_arguments: no overlap guard (cf. C15_tree_link_invariant) *)
+Theorem C15_fixed_tree_link_invariant :
+  forall (fn : nat -> list val -> option val) (classes : list cls)
+         (ds : list decl) (ls : list link) (ds' : list decl) (ls' : list link) (n : str) (pre cfg : val),
+    let p := fst (build_fixed ds ls) in
+    let q := fst (build_fixed ds' ls') in
+    (forall a, In a (p_links p) -> comparable (al_tgt a) [n] = false) ->
+    finish_tree fn classes p q n pre = Ok cfg ->
+    (forall a, In a (p_links p) -> holds fn a cfg) /\
+    (forall subpre, get pre [n] = Some subpre ->
+       exists s, get cfg [n] = Some s /\ forall a, In a (p_links q) -> holds fn a s).
+Proof. exact fixed_tree_link_invariant. Qed.
+Print Assumptions C15_fixed_tree_link_invariant.
+
+Example C15_fixed_tree_hypotheses_satisfiable :
+  p_links (fst (build_fixed tr_top [])) = [] /\
+  finish_tree wfn [] (fst (build_fixed tr_top [])) (fst (build_fixed ex_decls ex_links)) sFit tr_pre = Ok tr_cfg.
+Proof. exact fx_tree_finish. Qed.
